@@ -198,7 +198,7 @@ struct WL {
         int nw = 1 + gsim::gen_int(2), nr = 1 + gsim::gen_int(3);
         gsim::prog_reset(nw + nr);
         for (int t = 0; t < nw; t++) {
-            int k = 1 + gsim::gen_int(3);
+            int k = 1 + gsim::gen_int(3 + (gsim::thorough() ? 2 : 0));
             for (int i = 0; i < k; i++) {
                 int r = gsim::gen_int(10);
                 int code = r < 6 ? OP_WRITE : r < 8 ? OP_WRITE_CANCEL : OP_WRITE_MOVE;
